@@ -440,6 +440,11 @@ pub fn run(tier: Tier) -> i32 {
     let node_cases = node_level(&report);
     evals += node_cases;
     nontrivial += node_cases;
+    // the repair path admits shreds too (Repair::handle_response): signature-only mutants through it
+    let repair_cases = if crate::common::replay_req().is_some() { 0 } else { crate::c14::c12_repair_probe(&report, tier) };
+    println!("  repair admission histories: {repair_cases}");
+    evals += repair_cases;
+    nontrivial += repair_cases;
     let cov = json!({
         "evaluations": evals,
         "distinct_nontrivial": nontrivial,
@@ -448,6 +453,8 @@ pub fn run(tier: Tier) -> i32 {
         "mutants_per_class_and_base": classes,
         "mutants_passing_validation": passing.len(),
         "fed_to_blockstore": fed,
+        "repair_admission_histories": repair_cases,
+        "repair_admission_rule": "a real Repair instance repairing a 1- / 2- (thorough: 3-) slice block over scripted peers; the answers to one, every second or every shred request carry shreds that are genuine in everything but the signature (one bit flipped; made with another validator's key over the genuine commitment); afterwards every shred stored under the block's id must verify under the leader's key",
         "samples": samples.items,
     });
     report.finish(cov)
